@@ -4,5 +4,7 @@ set -e
 cd "$(dirname "$0")"
 export CARGO_NET_OFFLINE=true
 (cd lean && lake build RedbModel driver)
-[ -f harness/Cargo.lock ] || cp /repo/Cargo.lock harness/Cargo.lock
-(cd harness && cargo build --offline)
+for h in harness harness-cursor; do
+  [ -f $h/Cargo.lock ] || cp /repo/Cargo.lock $h/Cargo.lock
+  (cd $h && cargo build --offline)
+done
